@@ -544,7 +544,10 @@ SINGLE_KINDS = ["conv", "dw", "fc", "maxpool", "avgpool", "add", "sub", "mul", "
 def fam_single_op(rng, kind=None):
     """one operator of a given (or random) kind with corner shapes"""
     net = Net("single")
-    dt = _dtype(rng)
+    only8 = bool(kind) and kind.endswith("@8")      # "single:conv@8": 8-bit data types only
+    if only8:
+        kind = kind[:-2]
+    dt = _dtype(rng, allow16=not only8)
     if kind in ("hswish",):
         dt = rng.choice(["int8", "uint8"])
     kind = kind or rng.choice(SINGLE_KINDS)
